@@ -93,7 +93,7 @@ def run_c19(prop, tier):
         plain_emu = build.tool("plain", "ovniemu")
         cat = catalog.load_events()
         versions = {m: d["version"] for m, d in cat.items()}
-        traces = mutate.base_traces(versions)
+        traces = mutate.base_traces(versions, for_c19=True)
         base = scratch.sub("t")
         jobs = []
         seen = set()
